@@ -24,6 +24,13 @@ def size_of(I, st, inst, args):
     return I.size_of(_targ(I, inst))
 
 
+def size_of_val(I, st, inst, args):
+    t = _targ(I, inst)
+    if t.layout:
+        return I.size_of(t)
+    raise Unsupported("size_of_val of unsized %s" % t)
+
+
 def align_of(I, st, inst, args):
     t = _targ(I, inst)
     if t.layout:
@@ -225,7 +232,7 @@ def unreachable(I, st, inst, args):
 
 
 TABLE = {
-    "size_of": size_of, "min_align_of": align_of, "pref_align_of": align_of, "align_of": align_of,
+    "size_of": size_of, "size_of_val": size_of_val, "align_of_val": align_of, "min_align_of": align_of, "pref_align_of": align_of, "align_of": align_of,
     "write_via_move": write_via_move, "read_via_copy": read_via_copy,
     "discriminant_value": discriminant_value,
     "assume": assume, "likely": ident, "unlikely": ident, "black_box": ident,
